@@ -19,8 +19,12 @@ def gen_cases(ctx):
     for k in range(n_rand):
         ml = maxlen if k % 4 else 6
         c = dc.rand_case(rng, ml)
-        if rng.random() < 0.08:
+        u = rng.random()
+        if u < 0.05:
             c["inner"] = "cube"
+        elif u < 0.13:
+            # a parameterised instance; successive calls see different parameters of the same class
+            c["inner"], c["p"], c["mul"] = "pow", rng.choice([1, 2, 3]), rng.choice([1, 2, 3])
         cases.append(c)
     out = []
     for c in cases:
@@ -42,16 +46,16 @@ CORPUS = [
 
 
 def lean_op(case):
-    if case.get("inner") == "cube":
-        r, c = dc.npoints(case)
-        costs = [abs(a - b) ** 3 for a in case["s1"] for b in case["s2"]]
+    if case.get("inner") in ("cube", "pow"):
+        p, sc = (3, 1) if case["inner"] == "cube" else (case["p"], case["mul"])
+        costs = [sc * abs(a - b) ** p for a in case["s1"] for b in case["s2"]]
         cc = dict(case, inner="abs")
         return dc.lean_op(cc, engine="py", costs=costs)
     return dc.lean_op(case, engine="py")
 
 
 def expected(case, n):
-    if case.get("inner") == "cube":
+    if case.get("inner") in ("cube", "pow"):
         return math.inf if n == "inf" else float(n // dc.SCALE)
     return dc.expected_from_internal(case, n)
 
@@ -73,7 +77,7 @@ def run(ctx):
         got = impl.py_distance(case, container)
         res.evaluations += 1
         check_case(ctx, res, case, out, got, container)
-        if i % 7 == 0 and len(nonumpy_cases) < (4000 if ctx.thorough else 400) and case.get("inner") != "cube":
+        if i % 7 == 0 and len(nonumpy_cases) < (4000 if ctx.thorough else 400) and case.get("inner") not in ("cube", "pow"):
             nonumpy_cases.append((case, out))
     # NumPy-absent run in a sub-process
     job = [[[c, "list"], {}] for c, _ in nonumpy_cases]
